@@ -224,3 +224,153 @@ def evaluate(paths, bufs, out, assignment):
                 other.append((op, b, arg))
         res.append((tuple(emitted), state, p["flag_set"], tuple(other), p["end"], p["why"]))
     return res
+
+
+# ------------------------------------------------------------------------------------------------------------------------------------
+# generic guarded-path tables
+
+class Cons:
+    """a constraint on one symbolic value: it lies in `pos` (None = anything) and not in `neg`"""
+    __slots__ = ("pos", "neg")
+
+    def __init__(self, pos=None, neg=frozenset()):
+        self.pos = None if pos is None else frozenset(pos)
+        self.neg = frozenset(neg)
+
+    def meet(self, o):
+        if self.pos is None:
+            pos = o.pos
+        elif o.pos is None:
+            pos = self.pos
+        else:
+            pos = self.pos & o.pos
+        neg = self.neg | o.neg
+        if pos is not None:
+            pos = pos - neg
+            neg = frozenset()
+        return Cons(pos, neg)
+
+    def empty(self):
+        return self.pos is not None and not self.pos
+
+    def admits(self, v):
+        return (self.pos is None or v in self.pos) and v not in self.neg
+
+    def __repr__(self):
+        if self.pos is not None:
+            return "{%s}" % ",".join(sorted(map(_show, self.pos)))
+        return "not{%s}" % ",".join(sorted(map(_show, self.neg))) if self.neg else "any"
+
+
+def _show(v):
+    if isinstance(v, int) and not isinstance(v, bool):
+        return repr(chr(v))
+    return str(v)
+
+
+TRUE, FALSE = Cons([True]), Cons([False])
+
+
+class Recogniser:
+    """what a path table needs to know about blocks: guards, effects, where to stop.  Subclass per rule family."""
+    transparent = (DEREF,)
+
+    def __init__(self, f):
+        self.f = f
+        self.ops_at = {bb: (op, b, arg) for bb, op, b, arg in string_ops(f)}
+
+    def guard(self, bi, st):
+        """None, or (key, [(Cons, target), ...])"""
+        sw = bool_switch(self.f, bi)
+        if sw is None:
+            return None
+        if sw[0] == "empty" and sw[1] is not None:
+            return (("empty", sw[1]), [(TRUE, sw[2]), (FALSE, sw[3])])
+        return self.flag_guard(bi, sw, st)
+
+    def flag_guard(self, bi, sw, st):
+        return None
+
+    def stmt(self, s, st):
+        """effect of a statement: None or an op tuple"""
+        return None
+
+    def call(self, bi, t, ck, st):
+        """effect of a call: ('op', tuple) | 'transparent' | 'stop'"""
+        if bi in self.ops_at:
+            op, b, arg = self.ops_at[bi]
+            return "transparent" if op == "is_empty" else ("op", (op, b, arg))
+        if ck in self.transparent or any(ck.endswith(x) for x in self.transparent):
+            return "transparent"
+        return "stop"
+
+
+def paths(f, start, rec, stop_at=(), limit=3000, init_state=None):
+    """all paths from `start` until the recogniser says stop (or a block of stop_at, a return, a back edge): list of
+    {guards: {key: Cons}, ops: [...], end, why, state}"""
+    done = []
+    stack = [(start, {}, [], dict(init_state or {}), (start,))]
+    while stack:
+        bi, guards, ops, st, seen = stack.pop()
+        if len(done) > limit:
+            raise RuntimeError("e7.paths: more than %d paths from bb%d in %s" % (limit, start, f.key))
+        if bi in stop_at and bi != start:
+            done.append({"guards": guards, "ops": ops, "end": bi, "why": "stop", "state": st})
+            continue
+        blk = f.blocks[bi]
+        ops = list(ops)
+        st = dict(st)
+        for s in blk["stmts"]:
+            o = rec.stmt(s, st)
+            if o is not None:
+                ops.append(o)
+        t = blk["term"]
+        k = t["k"]
+        nxt = None
+        if k in ("goto", "drop"):
+            nxt = [(t["t"], guards)]
+        elif k == "assert":
+            nxt = [(t["t"], guards)]
+        elif k == "call":
+            fr = t["f"].get("fn")
+            ck = (fr.get("resolved") or fr["key"]) if fr else ""
+            r = rec.call(bi, t, ck, st)
+            if r == "stop" or t["t"] is None:
+                done.append({"guards": guards, "ops": ops, "end": bi, "why": "call " + ck, "state": st})
+                continue
+            if r != "transparent":
+                ops.append(r[1])
+            nxt = [(t["t"], guards)]
+        elif k == "switch":
+            g = rec.guard(bi, st)
+            if g is None:
+                done.append({"guards": guards, "ops": ops, "end": bi, "why": "switch", "state": st})
+                continue
+            key, edges = g
+            nxt = []
+            for cons, tg in edges:
+                cur = guards.get(key)
+                c2 = cons if cur is None else cur.meet(cons)
+                if c2.empty():
+                    continue
+                g2 = dict(guards)
+                g2[key] = c2
+                nxt.append((tg, g2))
+        else:
+            done.append({"guards": guards, "ops": ops, "end": bi, "why": k, "state": st})
+            continue
+        for tg, g in nxt:
+            if tg is None or tg in seen:
+                done.append({"guards": g, "ops": ops, "end": tg, "why": "back-edge", "state": st})
+            else:
+                stack.append((tg, g, ops, st, seen + (tg,)))
+    return done
+
+
+def matching(ps, assignment):
+    """the paths whose guards admit the assignment {key: value}; keys absent from the assignment are unconstrained"""
+    out = []
+    for p in ps:
+        if all(k not in assignment or c.admits(assignment[k]) for k, c in p["guards"].items()):
+            out.append(p)
+    return out
